@@ -189,6 +189,11 @@ theorem inv_step {c : Cfg} (hg : Good c) {s : State} (h : Inv c s) (op : Op) : I
     simp only [step]
     have := inv_init (c := c) ⟨hsw, had, hdel, hseed⟩
     exact ⟨this.envKnown, by intro n hn; simp [init] at hn, this.keys⟩
+  | probe ra mv =>
+    simp only [step]
+    split
+    · exact h
+    · exact ⟨envKnown_upsert _ h.envKnown, h.picked, h.keys⟩
 
 theorem inv_run {c : Cfg} (hg : Good c) : ∀ (ops : List Op) (s : State), Inv c s → Inv c (run c s ops)
   | [], _, h => h
@@ -233,6 +238,7 @@ theorem pick_step (c : Cfg) (s : State) (op : Op) :
   | setProject name project => simp [step, picks]
   | updateKey name key keyId => simp only [step, picks]; split <;> simp
   | destroy => simp [step, picks, init]
+  | probe ra mv => simp only [step, picks]; split <;> simp [upsertEnv]
 
 end CliConfig
 
